@@ -126,13 +126,17 @@ class C17(PropBase):
     manifest = {
         "text": "The Gallina model of the lookup code is COMPILED from the Rust source on every run (leafname, safe_leafname, replace_or_add_extension, "
                 "breakpad_sym_lookup, code_info_breakpad_sym_lookup, extra_debuginfo_lookup, binary_lookup, moz_lookup, lookup, join_rel's escape set, basename) "
-                "and proved equal to the hand-written model (c17_src_tie). Theorems on the generated code, for all byte strings (either separator style, "
+                "and proved equal to the hand-written model (c17_src_tie). Headline: c17_property / c17_property_code_info (everything below in one statement, no "
+                "hypothesis on the identifiers). Theorems on the generated code, for all byte strings (either separator style, "
                 "mixed and trailing separators, '.', '..', drive / UNC prefixes, NUL, non-ASCII), all DebugId values and all raw code ids (c17_ids_render_hex, "
                 "c17_src_all_ids): every cache_rel/server_rel of every FileKind, the code-info path and the mozilla-CAB variant does not start with a separator, "
                 "has no drive prefix and no `..` component (c17_src_relative, c17_src_code_info_contained, c17_src_moz; moz_lookup's unwrap never panics); "
                 "joining it onto any root under POSIX or Windows Path::join rules (incl. verbatim roots) or by concatenation keeps the root a prefix, and through "
                 "join_rel + WHATWG reference resolution (Url::join) it is requested below the base directory of every base path (c17_src_contained, "
-                "c17_join_contained, c17_join_verbatim_contained, c17_url_join_contained; refuted without the encoding). Consumers, derived from the source by "
+                "c17_join_contained, c17_join_verbatim_contained, c17_url_join_contained; refuted without the encoding); at the level of std::path components "
+                "on unix the joined cache path and its parent directory (create_dir_all) keep the root's components in front (c17_path_join_components, "
+                "c17_cache_paths_below_root; component model compared with the real std::path on every produced path). What is answered is pinned too "
+                "(c17_src_available, c17_src_declines). Consumers, derived from the source by "
                 "data flow: every .join( / join_rel( of SimpleSymbolSupplier / HttpSymbolSupplier joins a string that came out of a lookup builder onto a symbol "
                 "dir / cache dir / server URL, and it stays below that root for every module and kind (c17_src_consumers_known, c17_src_consumers_contained); "
                 "every file-system sink (fs::*, NamedTempFile, persist, SymbolFile::from_file, exists/is_file/...) receives a root or such a joined path "
@@ -416,6 +420,7 @@ class C17(PropBase):
         out = []
         stats = {"returned": 0, "created": 0}
         n_cmp = [0]
+        n_expect, n_nothing = {}, {}
         mans = {}
         try:
             model_exe = vlib.ocaml_build(self.pid)
@@ -452,7 +457,17 @@ class C17(PropBase):
                         if want[0] != "SKIP":
                             n_cmp[0] += 1
                             got = [g[2], g[3], "C:" + ",".join(sorted(x for x in g[4][2:].split(",") if x))]
-                            if got != want:
+                            # A download can fail for reasons that have nothing to do with paths (the loopback request timing out on
+                            # a loaded machine): a MISSING http result / cache file is tolerated per case (and counted: see below), a
+                            # DIFFERENT one never is.  The simple supplier does no I/O but stat: compared exactly.
+                            wr, gr = want[0][2:].split(","), got[0][2:].split(",")
+                            wc, gc = set(x for x in want[2][2:].split(",") if x), set(x for x in got[2][2:].split(",") if x)
+                            same = (got[1] == want[1] and len(wr) == len(gr) and all(a == b or a == "N" for a, b in zip(gr, wr)) and gc <= wc)
+                            if wc:
+                                n_expect[prof] = n_expect.get(prof, 0) + 1
+                                if not gc:
+                                    n_nothing[prof] = n_nothing.get(prof, 0) + 1
+                            if not same:
                                 out.append({"case": c, "profile": prof, "found_input": False,
                                             # (a constant 60-character head: the runner lists one violation per distinct head)
                                             "what": "fs correspondence: consumers differ from the flow model (Gen/C17Flow.v): predicted %s (returned by "
@@ -462,6 +477,12 @@ class C17(PropBase):
         ctx["info"]["fs_probe_paths_returned"] = stats["returned"]
         ctx["info"]["fs_probe_files_created"] = stats["created"]
         ctx["info"]["fs_probe_predictions_compared"] = n_cmp[0]
+        ctx["info"]["fs_probe_downloads_missing"] = sum(n_nothing.values())
+        for prof in self.profiles:
+            if n_expect.get(prof, 0) >= 50 and 2 * n_nothing.get(prof, 0) > n_expect[prof]:
+                out.append({"case": cases[0], "profile": prof, "found_input": False,
+                            "what": "fs correspondence: the flow model predicts cache files for %d cases, the HTTP supplier created none for %d of them"
+                                    % (n_expect[prof], n_nothing[prof])})
         return out
 
     @staticmethod
@@ -478,10 +499,16 @@ class C17(PropBase):
             cases = self.url_cases(ctx["seed"])
         out = []
         n_req = n_cmp = 0
-        model_exe = vlib.ocaml_build(self.pid)
-        mans, mdead = vlib.run_lines([model_exe, "--url"], cases, timeout=300, mem_gb=8)
-        if mdead:
-            raise vlib.CheckFailure("c17 url model died at case %s" % cases[mdead[0][0]][:200])
+        try:
+            model_exe = vlib.ocaml_build(self.pid)
+            mans, mdead = vlib.run_lines([model_exe, "--url"], cases, timeout=300, mem_gb=8)
+            if mdead:
+                raise vlib.CheckFailure("c17 url model died at case %s" % cases[mdead[0][0]][:200])
+        except vlib.CheckFailure as e:
+            # the (generated) model driver does not build for this checkout — already reported by the runner as a broken
+            # obligation; the probes still run with their oracles on the implementation alone
+            mans = [None] * len(cases)
+            ctx["info"]["url_probe_model"] = "unavailable: %s" % str(e)[-200:]
         for prof in self.profiles:
             exe = ctx["exes"][("c17", prof)]
             ans, dead = vlib.run_lines([exe, "--url-probe"], cases, timeout=300, mem_gb=8, shards=16)
@@ -513,6 +540,8 @@ class C17(PropBase):
                     out.append({"case": c, "profile": prof, "found_input": True, "what": bad})
                     continue
                 # model vs url crate
+                if m is None:
+                    continue
                 mparts = m.split("|")
                 mcalls = [[("ELSEWHERE" if x in ("ELSEWHERE", "P") else unhx(x).decode("utf-8", "replace")) for x in f.split(",")] if f else []
                           for f in mparts[1:]]
